@@ -225,10 +225,18 @@ pub struct Harness {
 }
 
 pub fn parse_state(s: &str) -> St {
-    let imp: Locale = s.parse().unwrap_or_else(|e| panic!("harness init {:?} must parse: {:?}", s, e));
+    try_parse_state(s).unwrap_or_else(|e| panic!("{}", e))
+}
+
+/// `Err` when the library under test rejects a well-formed menu string (a defect that the
+/// input-space checks report; a harness then starts from the remaining initial states)
+pub fn try_parse_state(s: &str) -> Result<St, String> {
     let tokens = rm::split_tokens(s.as_bytes());
     let a = rm::run_locale(&tokens, rm::Mode::StrictBareTkey).unwrap_or_else(|| panic!("harness init {:?} must be well-formed", s));
-    St { imp, model: a.value }
+    match guard(|| s.parse::<Locale>()) {
+        Out::Ok(imp) => Ok(St { imp, model: a.value }),
+        o => Err(format!("the library does not parse the well-formed string {:?}: {}", s, o.brief(|x| x.to_string()))),
+    }
 }
 
 pub fn default_state() -> St {
@@ -693,6 +701,9 @@ impl Harness {
                     Ok(l2) => format!("Ok({:?})", l2),
                     Err(e) => format!("Err({:?})", e),
                 };
+                if s == canon && o.is_ok() {
+                    fault(f, "c12.route", "a value reached by mutation is not the value obtained by parsing its own canonical string (two representations of one logical value)", format!("Ok({:?})", imp), os.clone());
+                }
                 fault(f, "c05.locale", "re-parsing the serialised value does not give it back", format!("Ok({:?})", imp), format!("{} for {}", os, s));
                 fault(f, "c10.reparse", "re-parsing the serialised value does not give it back", format!("Ok({})", s), os);
             }
@@ -808,6 +819,8 @@ pub struct Explored {
     pub depth: Vec<u32>,
     pub transitions: u64,
     pub self_loops: u64,
+    /// successor states that violated a per-state invariant (reported, not explored further)
+    pub pruned: u64,
     pub max_depth: u32,
     pub levels: Vec<u64>,
     /// (state index the fault was observed at or from, optional action index, fault)
@@ -841,6 +854,7 @@ struct Cand {
 }
 
 struct ChunkOut {
+    pruned: u64,
     cands: Vec<Cand>,
     faults: Vec<(u32, Option<u32>, Fault)>,
     transitions: u64,
@@ -860,6 +874,7 @@ pub fn explore(ctx: &Ctx, h: &Harness, state_cap: usize) -> Result<Explored, Str
     let mut distinct_models = 0u64;
     let mut transitions = 0u64;
     let mut self_loops = 0u64;
+    let mut pruned = 0u64;
     let mut levels = vec![];
 
     fn lookup(index: &HashMap<u64, Vec<u32>>, states: &[St], h: u64, st: &St) -> Option<u32> {
@@ -924,13 +939,17 @@ pub fn explore(ctx: &Ctx, h: &Harness, state_cap: usize) -> Result<Explored, Str
                         }
                         let a = lo + c * CHUNK;
                         let b = (a + CHUNK).min(hi);
-                        let mut out = ChunkOut { cands: vec![], faults: vec![], transitions: 0, self_loops: 0, per_action: BTreeMap::new() };
+                        let mut out = ChunkOut { pruned: 0, cands: vec![], faults: vec![], transitions: 0, self_loops: 0, per_action: BTreeMap::new() };
                         let mut fl = vec![];
                         for i in a..b {
                             let st = &states_ref[i];
-                            h.check(st, &mut fl);
-                            for x in fl.drain(..) {
-                                out.faults.push((i as u32, None, x));
+                            if level == 0 {
+                                // initial states are checked here; every other state was checked when
+                                // it was generated
+                                h.check(st, &mut fl);
+                                for x in fl.drain(..) {
+                                    out.faults.push((i as u32, None, x));
+                                }
                             }
                             for (ai, act) in h.menu.iter().enumerate() {
                                 let e = out.per_action.entry(act.family()).or_insert([0; 5]);
@@ -949,7 +968,18 @@ pub fn explore(ctx: &Ctx, h: &Harness, state_cap: usize) -> Result<Explored, Str
                                         } else {
                                             let hsh = hash_of(&ns);
                                             if lookup(index_ref, states_ref, hsh, &ns).is_none() {
-                                                out.cands.push(Cand { parent: i as u32, action: ai as u32, hash: hsh, st: ns });
+                                                // a new state: evaluate the per-state invariants now; a state
+                                                // that violates one is reported and NOT explored further (its
+                                                // futures are not model states any more, and a value that has
+                                                // left the model -- e.g. a list that keeps growing -- would make
+                                                // the search infinite)
+                                                let before = fl.len();
+                                                h.check(&ns, &mut fl);
+                                                if fl.len() > before {
+                                                    out.pruned += 1;
+                                                } else {
+                                                    out.cands.push(Cand { parent: i as u32, action: ai as u32, hash: hsh, st: ns });
+                                                }
                                             }
                                         }
                                     }
@@ -969,6 +999,7 @@ pub fn explore(ctx: &Ctx, h: &Harness, state_cap: usize) -> Result<Explored, Str
             let out = o.into_inner().unwrap().expect("chunk result");
             transitions += out.transitions;
             self_loops += out.self_loops;
+            pruned += out.pruned;
             faults.extend(out.faults);
             for (k, v) in out.per_action {
                 let e = per_action.entry(k).or_insert([0; 5]);
@@ -995,6 +1026,7 @@ pub fn explore(ctx: &Ctx, h: &Harness, state_cap: usize) -> Result<Explored, Str
         depth,
         transitions,
         self_loops,
+        pruned,
         max_depth,
         levels,
         faults,
@@ -1023,7 +1055,16 @@ impl stateright::Model for SrModel {
     }
     fn next_state(&self, s: &St, a: u32) -> Option<St> {
         let mut sink = vec![];
-        self.h.step(s, &self.h.menu[a as usize], &mut sink).map(|x| x.0)
+        let ns = self.h.step(s, &self.h.menu[a as usize], &mut sink).map(|x| x.0)?;
+        if ns != *s {
+            // same pruning as the own explorer: a violating successor is not a state
+            let mut f = vec![];
+            self.h.check(&ns, &mut f);
+            if !f.is_empty() {
+                return None;
+            }
+        }
+        Some(ns)
     }
     fn properties(&self) -> Vec<stateright::Property<Self>> {
         vec![stateright::Property::always("explored", |_, _| true)]
@@ -1162,8 +1203,20 @@ pub fn parsed_inits() -> Vec<(String, St)> {
         "en-t-h0-true",
     ]
     .iter()
-    .map(|s| (format!("parse({})", s), parse_state(s)))
+    .filter_map(|s| try_parse_state(s).ok().map(|st| (format!("parse({})", s), st)))
     .collect()
+}
+
+/// every harness, with the large cross harness (C10; every thorough run)
+pub const ALL_LARGE: [&str; 5] = ["H-id", "H-u", "H-t", "H-x", "H-cross"];
+/// every harness, with the small cross harness (quick tier of the properties that ride on E3)
+pub const ALL_SMALL: [&str; 5] = ["H-id", "H-u", "H-t", "H-x", "H-cross-s"];
+pub fn std_set(ctx: &Ctx) -> &'static [&'static str] {
+    if ctx.quick() {
+        &ALL_SMALL
+    } else {
+        &ALL_LARGE
+    }
 }
 
 pub fn harnesses(ctx: &Ctx, which: &[&str]) -> Vec<std::sync::Arc<Harness>> {
@@ -1172,7 +1225,7 @@ pub fn harnesses(ctx: &Ctx, which: &[&str]) -> Vec<std::sync::Arc<Harness>> {
     let mut inits = vec![("default".to_string(), default_state())];
     inits.extend(parsed_inits());
     let mut out = vec![];
-    let want = |n: &str| which.is_empty() || which.contains(&n);
+    let want = |n: &str| which.contains(&n);
     if want("H-id") {
         out.push(std::sync::Arc::new(Harness { name: "H-id", inits: inits.clone(), menu: id_menu(thorough), probes: probes(), tag_cap: 3, likely: likely.clone() }));
     }
@@ -1185,7 +1238,10 @@ pub fn harnesses(ctx: &Ctx, which: &[&str]) -> Vec<std::sync::Arc<Harness>> {
     if want("H-x") {
         out.push(std::sync::Arc::new(Harness { name: "H-x", inits: inits.clone(), menu: x_menu(), probes: probes(), tag_cap: if thorough { 5 } else { 4 }, likely: likely.clone() }));
     }
-    if want("H-cross") {
+    for (hname, large) in [("H-cross", true), ("H-cross-s", false)] {
+        if !which.contains(&hname) {
+            continue;
+        }
         // two values per component, all components in one Locale, plus the conversions and
         // whole-field assignments
         let mut m = vec![
@@ -1210,12 +1266,17 @@ pub fn harnesses(ctx: &Ctx, which: &[&str]) -> Vec<std::sync::Arc<Harness>> {
             m.push(Act::Maximize);
             m.push(Act::Minimize);
         }
-        if thorough {
-            m.extend([Act::SetRegion(Some("GB")), Act::SetAttr("zzz9"), Act::SetKeyword("1a", vec!["bar", "foo"]), Act::SetTfield("h0", vec!["foo", "bar"])]);
+        if large {
+            m.extend([Act::SetRegion(Some("GB")), Act::SetAttr("zzz9"), Act::RemoveAttr("ZZZ9"), Act::SetKeyword("1a", vec!["bar", "foo"]), Act::RemoveKeyword("1a"), Act::SetTfield("h0", vec!["foo", "bar"])]);
+        }
+        if large && thorough {
+            m.extend([Act::SetScript(Some("Arab")), Act::SetLanguage("ar"), Act::AddTag("m"), Act::RemoveTag("M"), Act::SetTlang("en-Latn-US-1996"), Act::SetVariants(vec!["fonipa", "1996"])]);
         }
         let mut ci = vec![("default".to_string(), default_state())];
-        ci.push(("parse(en-Latn-US-valencia-t-de-h0-hybrid-u-abc-ca-foo-x-a)".to_string(), parse_state("en-Latn-US-valencia-t-de-h0-hybrid-u-abc-ca-foo-x-a")));
-        out.push(std::sync::Arc::new(Harness { name: "H-cross", inits: ci, menu: m, probes: probes(), tag_cap: 2, likely: likely.clone() }));
+        if let Ok(st) = try_parse_state("en-Latn-US-valencia-t-de-h0-hybrid-u-abc-ca-foo-x-a") {
+            ci.push(("parse(en-Latn-US-valencia-t-de-h0-hybrid-u-abc-ca-foo-x-a)".to_string(), st));
+        }
+        out.push(std::sync::Arc::new(Harness { name: hname, inits: ci, menu: m, probes: probes(), tag_cap: if large && thorough { 3 } else { 2 }, likely: likely.clone() }));
     }
     out
 }
@@ -1288,14 +1349,14 @@ pub fn run_harnesses(ctx: &Ctx, which: &[&str], prefixes: &[&str], rep: &mut Rep
             rep.engine_failures.push(format!("vacuity guard: harness {} explored only {} states", h.name, n));
         }
         // engine cross-validation: stateright must find the same number of unique states
-        let sr = if n <= 400_000 || !ctx.quick() {
+        let sr = if n <= 100_000 || !ctx.quick() {
             let c = stateright_counts(ctx, h);
             if c.0 != n {
                 rep.engine_failures.push(format!("explorer cross-validation: harness {}: own BFS found {} unique states, stateright {}", h.name, n, c.0));
             }
             json!({"unique_states": c.0, "states_generated": c.1, "max_depth": c.2})
         } else {
-            json!("skipped in the quick tier for this harness (state count above 400000)")
+            json!("skipped in the quick tier for this harness (more than 100000 states; cross-counted in the thorough tier)")
         };
         let pa: BTreeMap<String, Value> = ex
             .per_action
@@ -1303,7 +1364,7 @@ pub fn run_harnesses(ctx: &Ctx, which: &[&str], prefixes: &[&str], rep: &mut Rep
             .map(|(k, c)| (k.to_string(), json!({"calls": c[0], "ok_or_true": c[1], "false": c[2], "err": c[3], "disabled": c[4]})))
             .collect();
         sum.json[h.name] = json!({
-            "unique_states": n, "transitions": ex.transitions, "self_loops": ex.self_loops, "max_depth": ex.max_depth,
+            "unique_states": n, "transitions": ex.transitions, "self_loops": ex.self_loops, "violating_successors_not_explored": ex.pruned, "max_depth": ex.max_depth,
             "states_per_level": ex.levels, "distinct_model_values": ex.distinct_models, "init_states": h.inits.len(),
             "actions_in_menu": h.menu.len(), "faults_recorded_all_properties": ex.faults.len(), "faults_of_this_property": kept,
             "per_action": pa, "stateright_bfs": sr, "explored_to_exhaustion": true, "wall_s": (ex.wall * 100.0).round() / 100.0,
@@ -1376,7 +1437,7 @@ pub fn fill_report(rep: &mut Report, sum: &E3Summary, what: &str) {
 
 pub fn run_c10(ctx: &Ctx) -> Report {
     let mut rep = Report::new();
-    let sum = run_harnesses(ctx, &[], &["c10."], &mut rep, false);
+    let sum = run_harnesses(ctx, &ALL_LARGE, &["c10."], &mut rep, false);
     fill_report(&mut rep, &sum, "C10 histories");
     super::args::run_arg_sweep(ctx, &mut rep, true);
     rep.rule = "E3: every state reachable from default() and from six parser-built values under the menus of five harnesses (H-id, H-u, H-t, H-x, H-cross: every public mutator with valid, boundary and invalid arguments); after every call the result (Ok/Err/bool) is compared with the set/map model and an Err must leave the value unchanged; in every state every getter, is_empty, has_*, to_string and a re-parse are compared with the model. E4 (arguments): every byte string of length <= 2 and every boundary-class string up to length 9 as the textual argument of every getter/setter, compared with the model's validation and normalisation. distinct_nontrivial = distinct model values reached.".into();
